@@ -359,6 +359,63 @@ def deep_diff(data, want, what):
         what, len(want), len(got), k, got[k:k + 20], want[k:k + 20])
 
 
+# ---------------------------------------------------------------- arrays that share storage but differ in length
+# b = a; b.pop() leaves two arrays over one storage, of different lengths (popfirst: different starts).  Whatever such a
+# program has built, json(v) and -o must describe the value v HAS at that moment -- the one print shows at the same moment --
+# each occurrence with its own length.  No reference for the value is needed (and none is used: what push through a second
+# reference does to the first one is the subject of C09's known finding): print and json() / -o are compared with each other.
+SH_ELEMS = ["1", "2", "3", "4", "5", "6", "7", "'s'", "'t'", "true", "null", "2.5", "-1"]
+SH_VALUES = ["[@b, @a]", "[@a, @b]", "{q: @a, rest: @b}", "{rest: @b, q: @a}", "[@a, @b, @c]", "[@c, @b, @a]", "[[@a], {k: @b}, @c]", "{x: [@a, @b], y: @c}",
+             "[@b, @b, @a]", "[@a, @a, @b]", "{a: @a, b: @b, c: @c}", "[@b, [@c, [@a]]]", "[{k: @a}, {k: @b}]", "[@a, 0, @b, 's', @c]", "@a", "@b", "[@c]",
+             "{k: {k: @a, j: @b}}", "[@a, @b, @a, @b]"]
+
+
+def gen_shared(rng):
+    """(statements, names) : 1-2 base arrays, 1-3 further references to them (variables, object members, array elements),
+    then 1-5 length-changing (and a few other) operations through any of the references"""
+    stmts = []
+    n0 = rng.randint(2, 6)
+    stmts.append("a = [%s]" % ", ".join(rng.choice(SH_ELEMS) for _ in range(n0)))
+    refs = ["a"]
+    how = rng.randrange(6)
+    if how == 0:
+        stmts += ["b = a", "c = a"]
+        refs += ["b", "c"]
+    elif how == 1:
+        stmts += ["b = a", "c = b"]
+        refs += ["b", "c"]
+    elif how == 2:
+        stmts += ["o = {q: a}", "o.rest = o.q", "b = o.rest"]
+        refs += ["o.q", "o.rest", "b"]
+    elif how == 3:
+        stmts += ["h = [a, a]", "b = h[0]"]
+        refs += ["h[0]", "h[1]", "b"]
+    elif how == 4:
+        stmts += ["b = a", "c = [%s]" % ", ".join(rng.choice(SH_ELEMS) for _ in range(rng.randint(1, 4))), "d = c"]
+        refs += ["b", "c", "d"]
+    else:
+        stmts += ["b = a"]
+        refs += ["b"]
+    nops = rng.randint(1, 5)
+    shrunk = False
+    for i in range(nops):
+        r = rng.choice(refs[1:] if (i == 0 and len(refs) > 1) else refs)
+        k = rng.random()
+        if k < 0.4 or (i == nops - 1 and not shrunk):
+            stmts.append("%s.pop()" % r)
+            shrunk = True
+        elif k < 0.7:
+            stmts.append("%s.popfirst()" % r)
+            shrunk = True
+        elif k < 0.85:
+            stmts.append("%s.push(%s)" % (r, rng.choice(SH_ELEMS)))
+        elif k < 0.93:
+            stmts.append("%s[0] = %s" % (r, rng.choice(SH_ELEMS)))
+        else:
+            stmts.append("e%d = %s" % (i, r))
+            refs.append("e%d" % i)
+    return stmts, refs
+
 # ---------------------------------------------------------------- the check
 
 class C04(Check):
@@ -371,6 +428,9 @@ class C04(Check):
             "(auto-created containers, shared and cyclic structures of 1-4 containers, functions, non-finite numbers, regexes); "
             "acyclic nesting of every depth up to the decoder's limit of 10000 (arrays, objects, alternating, mixed with siblings, "
             "every leaf kind; read from a document or wrapped by a loop; depths to 72 against the model, the rest on the binary); "
+            "arrays that share storage but differ in length (b = a; b.pop() / popfirst() / push through variables, object members, array "
+            "elements and members of the input document; 1-5 operations), combined into arrays and objects: json(v) and the -o payload "
+            "(library and binary) must equal what print shows for the same value at the same moment; "
             "oracle: Python's strict parser reads the output and the value equals what it reads from the input (doubles bit for "
             "bit); cyclic/inexpressible => error outcome.  non-trivial = the value contains a container")
 
@@ -399,6 +459,8 @@ class C04(Check):
         n_prog = 300 if tier == "quick" else 6000
         for i in range(n_prog):
             self.prog_cases(rng, "p%d" % i, i)
+        for i in range(500 if tier == "quick" else 8000):
+            self.shared_cases(rng, "h%d" % i, i)
         return self.cases
 
     def add(self, cid, prog, inputs, selectors, meta, nontrivial, tags=()):
@@ -501,11 +563,70 @@ class C04(Check):
                 prog = "{ $ = %s }" % e
                 self.add(cid, prog, ["0"], (), {"form": "rootval", "expect": json.dumps(exp)}, isinstance(exp, (list, dict)))
 
+    def shared_cases(self, rng, cid, i):
+        stmts, refs = gen_shared(rng)
+        expr = rng.choice(SH_VALUES)
+        pick = {"@a": refs[0]}
+        others = refs[1:] or refs
+        pick["@b"] = rng.choice(others)
+        pick["@c"] = rng.choice(refs)
+        for k, v in pick.items():
+            expr = expr.replace(k, v)
+        body = "\n ".join(stmts)
+        form = i % 4
+        if form in (0, 1):
+            prog = "BEGIN { %s\n v = %s\n print v\n print \"==\"\n print json(v) }" % (body, expr)
+            if form == 1:
+                prog = "BEGIN { %s\n print %s\n print \"==\"\n print json(%s) }" % (body, expr, expr)
+            self.add(cid, prog, [], (), {"form": "print=json"}, True, ("shared",))
+        elif form == 2:
+            prog = "{ %s\n $ = %s\n print $ }" % (body, expr)
+            self.add(cid, prog, [rng.choice(["0", "{}", "\"s\""])], (), {"form": "print=root"}, True, ("shared",))
+        else:
+            # the same on a document: a member of the root becomes a second, shorter reference to another member
+            n = rng.randint(2, 6)
+            doc = '{"q": [%s], "n": %d}' % (", ".join(rng.choice(["1", "2", "3", '"s"', "null", "true", "2.5", "[]"]) for _ in range(n)), n)
+            ops = ["$.rest = $.q"]
+            for _ in range(rng.randint(1, 3)):
+                ops.append(rng.choice(["$.rest.popfirst()", "$.rest.pop()", "$.rest.pop()", "$.q.pop()", "$.q.popfirst()", "$.more = $.rest",
+                                       "$.l = [$.q, $.rest]", "$.rest.push(9)"]))
+            if not any("pop" in o for o in ops):
+                ops.append("$.rest.popfirst()")
+            prog = "{ %s\n print $ }" % "\n ".join(ops)
+            self.add(cid, prog, [doc], (), {"form": "print=root"}, True, ("shared",))
+
     # ---- oracle
     def oracle(self, case, impl):
         m = case.meta
         form = m.get("form")
         if form is None:
+            return None
+        if form in ("print=json", "print=root"):
+            if impl.outcome in ("timeout",):
+                return "the run did not finish"
+            if impl.outcome != "ok":
+                return "outcome %s for a program that only builds, shortens and prints arrays" % impl.outcome
+            if form == "print=json":
+                shown, sep, text = impl.stdout.partition(b"\n==\n")
+                if not sep:
+                    return "unexpected output frame %r" % impl.stdout[:80]
+                what = "json(v)"
+            else:
+                shown, text, what = impl.stdout, None, "-o payload"
+                if impl.json in ("!", "P", "~", "?"):
+                    return "-o payload: no JSON produced (%s)" % impl.json
+                text = unhx(impl.json)
+            try:
+                want = loads(shown)
+            except BadJson as e:
+                return None         # what print shows is not JSON text (not the subject here)
+            try:
+                got = loads(text)
+            except BadJson as e:
+                return "%s is not valid JSON: %s" % (what, e)
+            if not same(got, want):
+                return "%s differs from the value print shows at the same moment (%s): %s" % (
+                    what, shown.decode("utf-8", "replace").strip()[:120], first_diff(got, want))
             return None
         if impl.outcome in ("timeout",):
             return "the run did not finish (JSON conversion must terminate)"
@@ -606,9 +727,51 @@ class C04(Check):
                     if why:
                         viol.append((Case(c.id + mode, None, dict(m, mode=mode, argv=args[1:])), "binary: " + why))
             ndeep = self.deep_binary(rng, tier, d, viol)
+            nshared = self.shared_binary(tier, d, viol, ctx["cases"])
         finally:
             shutil.rmtree(d, ignore_errors=True)
-        return viol, {"binary_runs": n, "deep_binary_runs": ndeep}
+        return viol, {"binary_runs": n, "deep_binary_runs": ndeep, "shared_storage_binary_runs": nshared}
+
+    def shared_binary(self, tier, d, viol, cases):
+        """arrays sharing storage with different lengths at the root: -o FILE of the binary against what the program printed"""
+        cands = [c for c in cases if c.meta.get("form") == "print=root"]
+        cands = cands[:40 if tier == "quick" else 400]
+        for c in cands:
+            m = c.meta
+            inp, outp, progp = os.path.join(d, "sh.json"), os.path.join(d, "sh.out"), os.path.join(d, "sh.prog")
+            with open(inp, "w") as f:
+                f.write(m["inputs"][0])
+            with open(progp, "w") as f:
+                f.write(m["prog"])
+            if os.path.exists(outp):
+                os.remove(outp)
+            args = [JQAWK, "-o", outp, "-f", progp, inp]
+            try:
+                p = subprocess.run(args, stdin=subprocess.DEVNULL, stdout=subprocess.PIPE, stderr=subprocess.PIPE, timeout=20)
+            except subprocess.TimeoutExpired:
+                continue
+            why = None
+            if b"goroutine " in p.stderr or b"panic:" in p.stderr:
+                why = "crash trace on stderr"
+            elif p.returncode != 0:
+                why = "exit status %d: %r" % (p.returncode, p.stderr[:80])
+            elif not os.path.exists(outp):
+                why = "-o FILE not written"
+            else:
+                try:
+                    want = loads(p.stdout)
+                except BadJson:
+                    continue
+                try:
+                    got = loads(open(outp, "rb").read())
+                    if not same(got, want):
+                        why = "-o FILE differs from the value print shows at the same moment (%s): %s" % (
+                            p.stdout.decode("utf-8", "replace").strip()[:120], first_diff(got, want))
+                except BadJson as e:
+                    why = "-o FILE is not valid JSON: %s" % e
+            if why:
+                viol.append((Case(c.id + "file", None, dict(m, mode="file", argv=args[1:])), "binary: " + why))
+        return len(cands)
 
     def deep_binary(self, rng, tier, d, viol):
         """documents and program-built values nested up to the decoder's limit, through the real binary: -o FILE of the
